@@ -207,6 +207,23 @@ CHECKS = {
                   "No axioms.",
         technique="Rocq proofs (mode independence of normalisation and emission) + two-run differential oracle on the code",
         ref="§C11"),
+    "C12": dict(
+        text="PARTIAL. Proved for every list of sample distances (hence every shape) in the exact-rational model of "
+             "parametric()/_filter_segments: C12_filter (no emitted segment travels more than 0.9 res + largest sample spacing; "
+             "every emitted segment but the first and last travels more than 0.9 res; lengths add up to the sampled path), "
+             "C12_keeps_last, C12_count (count between T/(0.9res+dmax) and T/(0.9res)+1), C12_sampling (sample step between "
+             "res/10 and res/9 of length when L >= res), C12_const_speed (no segment longer than 91/90 res for samples at most "
+             "L/n apart), C12_halving (halving never yields fewer segments whenever the finer sampled polyline satisfies "
+             "T1(0.45res+dmax2) < 0.9res T2). Tie: filter and sample count exercised through the public trace.parametric on dyadic "
+             "curves and compared with the model evaluated in Coq; the property's bounds checked on real arcs / arc_radius / "
+             "circles / constant-radius helices / threads over four decades of L/res, both unit systems, with halving chains for "
+             "every shape.",
+        note=TB + "Partial: binary64 rounding in the filter is not modelled (exact on the correspondence inputs, 1e-7 margins "
+                  "in the shape oracle); 'length' is travelled length along the samples, related to chord length by the oracle's "
+                  "geometry, not by a theorem; the hypothesis of C12_halving is not proved for splines/spirals (oracle search "
+                  "only). No axioms.",
+        technique="Rocq proofs over Q (induction on the sample list, lra/nra) + correspondence (vm_compute) + geometric oracle on the code",
+        ref="§C12"),
 }
 
 PENDING_REASON = "check not built yet in this session (work in progress; see DESIGN.md §10 for the order)"
